@@ -201,7 +201,10 @@ def plan(rng, tier):
                                    ["some", rng.randrange(1 << 16)],
                                    ["leaves"], ["interior"]])
         if cfg["dom"].get("kflavor") == "hk":
-            cfg["dom"]["kflavor"] = "int"
+            # (strings, not small ints: those are immortal, and a key an
+            # error exit releases once too often must die of it -- the
+            # sanitizer sees it when the world is torn down)
+            cfg["dom"]["kflavor"] = "str"
         if cfg["dom"].get("vflavor") == "tv":
             cfg["dom"]["vflavor"] = "int"
     follow = []
